@@ -366,6 +366,9 @@ func (s *Session) Do(op string) (obs string, stop bool) {
 	case "setroot":
 		r := unit(func() error { return s.Dst.SetRoot(s.h(int(a[1]))) })
 		return r, failed(r)
+	case "reopen":
+		r := Safely(func() string { return s.reopen(f[1]) })
+		return r, r != "ok"
 	case "rt":
 		return s.roundTrip(int(a[1]), int(a[2]), int(a[3])), false
 	case "dump":
@@ -391,6 +394,35 @@ func (s *Session) Do(op string) (obs string, stop bool) {
 		return obs, false
 	}
 	return "badop", false
+}
+
+// reopen: serialise the message, decode it (Unmarshal or Decoder.Decode) and continue building
+// in the decoded message; handles into the old message are dropped.
+func (s *Session) reopen(path string) string {
+	b, err := s.Dst.Marshal()
+	if err != nil {
+		return "err"
+	}
+	var m *capnp.Message
+	if path == "d" {
+		m, err = capnp.NewDecoder(bytes.NewReader(b)).Decode()
+	} else {
+		m, err = capnp.Unmarshal(b)
+	}
+	if err != nil {
+		return "err"
+	}
+	m.TraverseLimit = s.Dst.TraverseLimit
+	m.DepthLimit = s.Dst.DepthLimit
+	old := s.Dst
+	s.Dst = m
+	old.Reset(capnp.SingleSegment(nil)) // the discarded message gives up its capability references
+	for i := range s.Handles {
+		if s.Loc[i] == 'd' {
+			s.Handles[i] = capnp.Ptr{}
+		}
+	}
+	return "ok"
 }
 
 func (s *Session) segments(m *capnp.Message) [][]byte {
